@@ -10,11 +10,18 @@ CASES = {'quick': 6000, 'thorough': 60000}
 PARALLEL = True
 PROOF_TIMEOUT = 900
 ALLOWED_AXIOMS = ()
-RULE = ('nested schedules over {lookup, register, replace}: up to 6 top-level operations, operations injected at every '
-        'internal step of an in-progress lookup (after the attribute read, before each adapter query, before the lock, after the lock) and between '
-        'the two steps of a registration, nesting <= 3; systematic family (one injection at every point of a cold/warm lookup) '
-        '+ random; non-trivial = some lookup returned a view and at least one operation ran inside another; distinct by full case')
-ASSUMPTIONS = ['every instruction of the translated programs (attribute read/rebind, dict get/set, one adapter-registry query, '
+RULE = ('(a) nested schedules over {lookup, register, replace}: up to 6 top-level operations, operations injected at every '
+        'internal step of an in-progress lookup (after the attribute read, before each adapter query, before the lock, with '
+        'the lock held, after the lock) and before/after the clear of a registration, nesting <= 3, ordinary and exception '
+        'classifier, pyramid and foreign registries; systematic family + random. (b) request histories on ONE long-lived '
+        'application (through _call_view, the Router, invoke_exception_view): predicates, accept, permissions, MultiViews, '
+        'exception classes as resources, short-lived per-instance-marked resources (directlyProvides), steps on several OS '
+        'threads one after the other, requests probed at every Python step of MultiView.add; every response compared with a '
+        'freshly built application. Non-trivial = some lookup/request was answered by a view and (a) an operation ran inside '
+        'another / (b) a registration followed a request; distinct by full case')
+ASSUMPTIONS = ['RegisterAdapter is one step: validated for in-place additions to a live MultiView by the atomicity probe (a test); '
+               'the unregister/register window of a single-view -> MultiView conversion is NOT covered',
+               'every instruction of the translated programs (attribute read/rebind, dict get/set, one adapter-registry query, '
                'lock acquire/release) is atomic (GIL-level); the adapter registry is a map slot -> view and registerAdapter is one step',
                'deterministic pre-emption realises properly nested interleavings only; free-running threads are a test (thorough tier)']
 TRUSTED = ['translator harness/c15/translate.py (Python ast -> instruction list + cache key, fail-closed; _find_views fully translated, the rest shape-pinned)',
@@ -39,6 +46,17 @@ I_INTERFACE, I_REQUEST, I_ROUTE, I_COMBINED = 0, 1, 2, 3
 CTX = {'O': 10, 'A': 11, 'B': 12, 'C': 13, 'D': 14, 'E': 15,
        'X': 16, 'Y': 17, 'EXC': 18, 'BASEEXC': 19}      # X(Exception), Y(X): classes that are resources AND exceptions
 EXC_CTX = ('X', 'Y')
+CTX.update({'M1': 31, 'M2': 32})                   # marker interfaces (contexts of registrations)
+MARKS = ('M1', 'M2')
+# providedBy(instance) of an instance marked with directlyProvides: a per-(class, marker) specification object that
+# lives only as long as something refers to it
+SPEC = {('A', 'M1'): 41, ('A', 'M2'): 42, ('E', 'M1'): 43, ('E', 'M2'): 44}
+
+
+def qctx(st):
+    """context interface id of a request step"""
+    m = st.get('mark')
+    return SPEC[(st['ctx'], m)] if m else CTX[st['ctx']]
 FINDING_KEY = 'C15-cache-key-omits-classifier'
 NAMES = ['', 'x']
 PT_LOCK, PT_UNLOCK, PT_GET, PT_HELD = 100, 101, 102, 103
@@ -311,11 +329,16 @@ def gen_hist(rng):
     use_accept = rng.random() < 0.6
     use_perm = rng.random() < 0.5
     use_exc = rng.random() < 0.5      # exception classes as contexts, exception views, exception-view lookups
+    use_marks = rng.random() < 0.35   # short-lived resources marked per instance (directlyProvides), marker-interface views
+    use_threads = rng.random() < 0.4  # steps run on different OS threads, one after the other
+    use_probe = rng.random() < 0.35   # a request made at every step of MultiView.add while a registration runs
     tag = [0]
     tri = []
     steps = []
-    rctx = [None, 'A', 'A', 'B', 'B', 'C'] + (['X', 'X', 'Y', 'X'] if use_exc else [])
-    qctx = ['A', 'B', 'B', 'C', 'C', 'D'] + (['X', 'X', 'Y', 'Y', 'X'] if use_exc else [])
+    rctx = [None, 'A', 'A', 'B', 'B', 'C'] + (['X', 'X', 'Y', 'X'] if use_exc else []) + \
+        (['M1', 'M2', 'M1', 'M2', 'A', 'E'] if use_marks else [])
+    qctx = ['A', 'B', 'B', 'C', 'C', 'D'] + (['X', 'X', 'Y', 'Y', 'X'] if use_exc else []) + \
+        (['A', 'A', 'E', 'A', 'E'] if use_marks else [])
 
     def reg():
         if tri and rng.random() < 0.6:
@@ -329,12 +352,15 @@ def gen_hist(rng):
         exc = 1 if ctx in EXC_CTX and rng.random() < 0.5 else 0
         if exc:
             name = 0
+        if ctx in MARKS:
+            rq = 1
         return V(rq, ctx, rng.choice([None, None, 'GET', 'POST', 'POST']), tag[0], name,
                  rng.choice([None, None, None, 'html', 'json', 'json', 'html1', 'plain']) if use_accept else None,
                  1 if use_perm and not exc and rng.random() < 0.4 else 0, exc)
     for _ in range(rng.choice([1, 2, 2, 3, 4])):
         steps.append(reg())
     lastq = None
+    lastmark = [None]
     for _ in range(rng.choice([3, 4, 5, 6, 8, 10])):
         if rng.random() < 0.62:
             if lastq is not None and rng.random() < 0.65:
@@ -356,10 +382,31 @@ def gen_hist(rng):
                       rng.choice(HKEYS) if use_accept else None,
                       rng.choice([0, 1]) if use_perm else 0, rng.choice([1, 1, 1, 0]) if use_perm else 1, cl)
             q['via'] = 1 if q['cl'] == 0 and q['req'] == 1 and q['s'] == 1 and rng.random() < 0.3 else 0
+            q.pop('mark', None)
+            if use_marks and q['cl'] == 0 and q['ctx'] in ('A', 'E'):
+                # alternate the marker so that a specification freed with one request is followed by another one
+                q['mark'] = rng.choice(['M1', 'M2', 'M1', 'M2', None]) if lastmark[0] is None else \
+                    rng.choice([m for m in MARKS if m != lastmark[0]] * 3 + [lastmark[0], None])
+                if q['mark'] is None:
+                    q.pop('mark')
+                lastmark[0] = q.get('mark')
+            if use_threads:
+                q['th'] = rng.choice([0, 1, 1, 2])
             lastq = q
             steps.append(q)
         else:
-            steps.append(reg())
+            v = reg()
+            if use_threads:
+                v['th'] = rng.choice([0, 0, 1, 2])
+            if use_probe and lastq is not None and lastq['cl'] == 0 and rng.random() < 0.7:
+                pr = {k: x for k, x in lastq.items() if k not in ('th', 'mark')}
+                pr['via'] = 0
+                pr['m'] = rng.choice(METHODS)
+                v['probe'] = pr
+                # aim the registration at the triad the probe asks for
+                if rng.random() < 0.7 and pr['ctx'] not in EXC_CTX:
+                    v['ctx'], v['name'], v['rq'], v['exc'] = pr['ctx'], pr['name'], 1, 0
+            steps.append(v)
     return {'hist': steps, 'order': 1 if use_accept and rng.random() < 0.3 else 0,
             'foreign': 1 if steps[0]['t'] == 'V' and rng.random() < 0.2 else 0}
 
@@ -411,6 +458,34 @@ def hist_scenarios():
                          Q(1, 'X', 'GET', cl=1), Q(1, 'Y', 'GET', cl=1), Q(1, 'Y', 'GET', cl=0), Q(3, 'Y', 'GET', cl=1)]})
     out.append({'hist': [V(1, 'A', None, 1), V(1, 'X', 'POST', 2, 0, None, 0, 1), Q(1, 'X', 'POST', cl=1),
                          Q(1, 'X', 'POST', cl=0), V(1, 'X', 'POST', 3), Q(1, 'X', 'POST', cl=0), Q(1, 'X', 'POST', cl=1)]})
+    # short-lived resources marked per instance, served alternately (their specification objects die with them)
+    def qm(ctx, mark, **kw):
+        d = Q(1, ctx, 'GET')
+        d['mark'] = mark
+        d.update(kw)
+        return d
+    out.append({'hist': [V(1, 'M1', None, 1), V(1, 'M2', None, 2)] +
+                        [qm('A', 'M1' if i % 2 == 0 else 'M2') for i in range(12)]})
+    out.append({'hist': [V(1, 'M1', None, 1), V(1, 'M2', 'POST', 2), V(1, 'A', None, 3)] +
+                        [qm('AE'[i % 2], ('M1', 'M2', 'M2', 'M1')[i % 4]) for i in range(10)]})
+    # the same application used from several OS threads, one after the other: a thread that has served a URL, another
+    # thread registers / replaces the view, the first thread serves the URL again
+    def th(d, n):
+        d = dict(d)
+        d['th'] = n
+        return d
+    out.append({'hist': [V(1, 'A', None, 1), th(Q(1, 'A', 'GET'), 1), th(V(1, 'A', None, 2), 2), th(Q(1, 'A', 'GET'), 1),
+                         th(Q(1, 'A', 'GET'), 0), th(V(1, 'A', 'POST', 3), 0), th(Q(1, 'A', 'POST'), 1),
+                         th(Q(1, 'A', 'POST'), 2)]})
+    # a further view added to a live MultiView while a request for the same URL is made at every step of the addition
+    def pv(v, probe):
+        v = dict(v)
+        v['probe'] = probe
+        return v
+    out.append({'hist': [V(1, 'A', None, 1), V(1, 'A', 'POST', 2), Q(1, 'A', 'GET'),
+                         pv(V(1, 'A', 'GET', 3), Q(1, 'A', 'GET')), Q(1, 'A', 'GET'),
+                         pv(V(1, 'A', None, 4, 0, 'json'), Q(1, 'A', 'POST')),
+                         pv(V(1, 'A', 'POST', 5), Q(1, 'A', 'POST'))]})
     # a registry that is not a pyramid Registry (lock and clear installed by Configurator._fix_registry)
     out.append({'hist': [V(1, 'A', None, 1), Q(1, 'A', 'GET'), V(1, 'A', None, 2), Q(1, 'A', 'GET'),
                          V(1, 'A', 'POST', 3), Q(1, 'A', 'POST'), Q(1, 'B', 'GET')], 'foreign': 1})
@@ -420,7 +495,7 @@ def hist_scenarios():
     return out
 
 
-SRO_LEN = {1: 2, 2: 2, 3: 4, 'A': 3, 'B': 4, 'C': 5, 'D': 4, 'E': 3, 'X': 5, 'Y': 6}
+SRO_LEN = {1: 2, 2: 2, 3: 4, 'A': 3, 'B': 4, 'C': 5, 'D': 4, 'E': 3, 'X': 5, 'Y': 6}      # checked in setup()
 
 
 def npoints(req, ctx):
@@ -641,6 +716,14 @@ def _ops_ok(ops, depth):
     return True
 
 
+def _probe_ok(q):
+    """a request made at every Python-level step of MultiView.add while the registration runs"""
+    if q is None:
+        return True
+    return isinstance(q, dict) and q.get('t') == 'Q' and valid({'hist': [q], 'order': 0}) and not q.get('via') \
+        and q.get('cl') == 0 and not q.get('mark')
+
+
 def valid(case):
     try:
         if isinstance(case, dict) and 'soak' in case:
@@ -657,7 +740,10 @@ def valid(case):
                 if not isinstance(st, dict):
                     return False
                 if st.get('t') == 'Q':
-                    if set(st) != {'t', 'req', 'ctx', 'name', 'm', 'h', 'u', 's', 'cl', 'via'} or st['req'] not in (1, 3) \
+                    if set(st) - {'th', 'mark'} != {'t', 'req', 'ctx', 'name', 'm', 'h', 'u', 's', 'cl', 'via'} \
+                            or st['req'] not in (1, 3) or st.get('th', 0) not in (0, 1, 2) \
+                            or st.get('mark') not in (None,) + MARKS \
+                            or (st.get('mark') and ((st['ctx'], st['mark']) not in SPEC or st['cl'])) \
                             or st['cl'] not in (0, 1) or st['via'] not in (0, 1) \
                             or (st['cl'] == 1 and (st['ctx'] not in EXC_CTX or st['name'] != 0 or st['via'])) \
                             or (st['via'] == 1 and (st['req'] != 1 or st['s'] != 1)) \
@@ -666,12 +752,14 @@ def valid(case):
                             or st['ctx'] not in ('A', 'B', 'C', 'D', 'E', 'X', 'Y') or st['name'] not in (0, 1):
                         return False
                 elif st.get('t') == 'V':
-                    if set(st) != {'t', 'rq', 'ctx', 'name', 'pred', 'acc', 'perm', 'exc', 'tag'} or st['rq'] not in (1, 2) \
+                    if set(st) - {'th', 'probe'} != {'t', 'rq', 'ctx', 'name', 'pred', 'acc', 'perm', 'exc', 'tag'} \
+                            or st['rq'] not in (1, 2) or st.get('th', 0) not in (0, 1, 2) \
+                            or not _probe_ok(st.get('probe')) \
                             or st['exc'] not in (0, 1) \
                             or (st['exc'] == 1 and (st['ctx'] not in EXC_CTX or st['perm'] or st['name'])) \
                             or st['perm'] not in (0, 1) \
                             or st['acc'] not in ACC \
-                            or st['pred'] not in PREDS or st['ctx'] not in (None, 'A', 'B', 'C', 'D', 'E', 'X', 'Y') \
+                            or st['pred'] not in PREDS or st['ctx'] not in (None, 'A', 'B', 'C', 'D', 'E', 'X', 'Y', 'M1', 'M2') \
                             or st['name'] not in (0, 1) or not isinstance(st['tag'], int) or not (0 < st['tag'] < 90000):
                         return False
                 else:
@@ -726,7 +814,7 @@ def to_wire(case):
         ops, ans = [], []
         for oid, st in enumerate(case['hist']):
             if st['t'] == 'Q':
-                ops.append([0, oid, [st['cl'], st['req'], CTX[st['ctx']], st['name']], []])
+                ops.append([0, oid, [st['cl'], st['req'], qctx(st), st['name']], []])
                 ans.append([oid, book.table(st)])
             else:
                 ops.append([1, oid, book.register(st), [], []])
@@ -747,7 +835,9 @@ def from_wire(case, raw):
     threads, spawn, cache, expects, quiet, table, tlen, manswers, sanswers = raw
     # model side of the observation: threads, spawn order, final cache, who answered each request, and -- in the place
     # of "what a freshly built application answers" -- the answer the declarative expectation demands
-    return {'model': [threads, spawn, _srt(cache), manswers, sanswers],
+    nprobe = len([1 for st in case.get('hist', []) if st['t'] == 'V' and st.get('probe')])
+    # atomicity probes are a TEST of the model's assumption (a registration is one step): no model side, expected 1
+    return {'model': [threads, spawn, _srt(cache), manswers, sanswers, [1] * nprobe],
             'spec': [expects, quiet, _srt(table), spawn, tlen, sanswers]}
 
 
@@ -806,6 +896,8 @@ def setup(tier):
     class O15Y(O15X):
         pass
 
+    _C15_SEAM = []
+
     class Reg(Registry):
         """public seam: a Registry subclass; runs the scheduled operations just before / just after the cache is cleared"""
         def _clear_view_lookup_cache(self):
@@ -818,13 +910,25 @@ def setup(tier):
             return r
 
         # public seam: the attribute itself, as a property of the subclass; operations scheduled "after the
-        # attribute was read, before cache.get" run inside the getter after the value was fetched
-        @property
-        def _view_lookup_cache(self):
-            try:
-                v = self.__dict__['_c15_cache']
-            except KeyError:            # behave like a plain attribute that was not set yet
-                raise AttributeError('_view_lookup_cache')
+        # attribute was read, before cache.get" run inside the getter after the value was fetched.  The property is
+        # TRANSPARENT: if a base class defines its own descriptor for the name it is used for get/set/delete,
+        # otherwise the value lives in the instance dict under its own name, exactly as without the seam.
+        def _c15_base(self):
+            for klass in type(self).__mro__:
+                d = klass.__dict__.get('_view_lookup_cache')
+                if d is not None and d is not _C15_SEAM[0] and hasattr(d, '__get__'):
+                    return d
+            return None
+
+        def _c15_get(self):
+            d = self._c15_base()
+            if d is not None:
+                v = d.__get__(self, type(self))
+            else:
+                try:
+                    v = self.__dict__['_view_lookup_cache']
+                except KeyError:        # behave like a plain attribute that was not set yet
+                    raise AttributeError('_view_lookup_cache')
             w = self.__dict__.get('_c15_world')
             if w is not None and w.stack:
                 ops = w.stack[-1]['inj'].pop(PT_GET, None)
@@ -832,26 +936,44 @@ def setup(tier):
                     w.run_ops(ops)
             return v
 
-        @_view_lookup_cache.setter
-        def _view_lookup_cache(self, v):
-            self.__dict__['_c15_cache'] = v
+        def _c15_set(self, v):
+            d = self._c15_base()
+            if d is not None and hasattr(d, '__set__'):
+                d.__set__(self, v)
+            else:
+                self.__dict__['_view_lookup_cache'] = v
 
-        @_view_lookup_cache.deleter
-        def _view_lookup_cache(self):
+        def _c15_del(self):
+            d = self._c15_base()
+            if d is not None and hasattr(d, '__delete__'):
+                d.__delete__(self)
+                return
             try:
-                del self.__dict__['_c15_cache']
+                del self.__dict__['_view_lookup_cache']
             except KeyError:
                 raise AttributeError('_view_lookup_cache')
+
+        _view_lookup_cache = property(_c15_get, _c15_set, _c15_del)
+
+    _C15_SEAM.append(Reg.__dict__['_view_lookup_cache'])
 
     from zope.interface.registry import Components
 
     class Foreign(Components):
         """a component registry that is NOT a pyramid Registry: Configurator._fix_registry installs the lock and the
         cache clear on it; same attribute seam as Reg"""
+        _c15_base = Reg.__dict__['_c15_base']
         _view_lookup_cache = Reg.__dict__['_view_lookup_cache']
+
+    class IO15M1(Interface):
+        pass
+
+    class IO15M2(Interface):
+        pass
 
     classes = {'A': O15A, 'B': O15B, 'C': O15C, 'D': O15D, 'E': O15E, 'X': O15X, 'Y': O15Y}
     _impl['Foreign'] = Foreign
+    _impl['markers'] = {'M1': IO15M1, 'M2': IO15M2}
     # harness-side patch of the module global (no source change): record what each lookup made by _call_view returned,
     # as a copy taken at return time
     if not hasattr(pview._find_views, 'c15_orig'):
@@ -875,6 +997,11 @@ def setup(tier):
     tbl = []
     for iface, i in sorted(ids.items(), key=lambda kv: kv[1]):
         tbl.append([i, [ids[x] for x in iface.__sro__]])
+    from zope.interface import providedBy as _pb
+    for (cn, mk), i in sorted(SPEC.items(), key=lambda kv: kv[1]):
+        inst = w.make_context(cn, mk)
+        tbl.append([i, [w.iid(x) for x in _pb(inst).__sro__]])
+        del inst
     _sro_tbl[:] = tbl
     # oracle: does registering an override under the other view interface remove the view it replaces?
     w.add_view(Rg(1, 'A', 0, 0, 1))
@@ -986,6 +1113,8 @@ class _World:
         self.iface_ids = {im['Interface']: I_INTERFACE, im['IRequest']: I_REQUEST, route: I_ROUTE,
                           route.combined: I_COMBINED, im['implementedBy'](object): CTX['O'],
                           im['implementedBy'](Exception): CTX['EXC'], im['implementedBy'](BaseException): CTX['BASEEXC']}
+        for mk, mi in im['markers'].items():
+            self.iface_ids[mi] = CTX[mk]
         from pyramid.interfaces import IViewClassifier, IExceptionViewClassifier
         self.classifiers = {0: IViewClassifier, 1: IExceptionViewClassifier}
         self.classifier_ids = {IViewClassifier: 0, IExceptionViewClassifier: 1}
@@ -1002,7 +1131,41 @@ class _World:
         self.ids = {}
         self.mvtags = {}
         self.keep = []
+        self.workers = {}
         self.answers = []
+
+    def iid(self, x):
+        """id of an interface / specification; per-instance specifications (directlyProvides) are identified by VALUE
+        (class, markers): the object itself is short-lived"""
+        i = self.iface_ids.get(x)
+        if i is not None:
+            return i
+        red = x.__reduce__()[1]
+        inv = {v: k for k, v in _impl['classes'].items()}
+        minv = {v: k for k, v in _impl['markers'].items()}
+        return SPEC[(inv[red[0]], minv[red[1]])]
+
+    def make_context(self, cn, mark=None):
+        inst = _impl['classes'][cn]()
+        if mark:
+            from zope.interface import directlyProvides
+            directlyProvides(inst, _impl['markers'][mark])
+        return inst
+
+    def run_on(self, th, fn):
+        """run fn on the OS thread number th (0 = the thread driving the case); strictly one after the other"""
+        if not th:
+            return fn()
+        from concurrent.futures import ThreadPoolExecutor
+        ex = self.workers.get(th)
+        if ex is None:
+            ex = self.workers[th] = ThreadPoolExecutor(max_workers=1)
+        return ex.submit(fn).result()
+
+    def close(self):
+        for ex in self.workers.values():
+            ex.shutdown(wait=True)
+        self.workers = {}
 
     def number(self, ops, counter):
         for o in ops:
@@ -1033,15 +1196,18 @@ class _World:
             r.headers['X-C15'] = str(tag)
             return r
         view.c15_tag = tag
+        def ctxarg(c):
+            return None if c is None else _impl['markers'][c] if c in MARKS else _impl['classes'][c]
         if v['exc']:
             self.config.add_exception_view(view, context=_impl['classes'][v['ctx']],
                                            route_name='r1' if v['rq'] == 2 else None,
                                            request_method=v['pred'], accept=ACC[v['acc']])
         else:
-            self.config.add_view(view, context=None if v['ctx'] is None else _impl['classes'][v['ctx']],
+            self.config.add_view(view, context=ctxarg(v['ctx']),
                                  name=NAMES[v['name']], route_name='r1' if v['rq'] == 2 else None,
                                  request_method=v['pred'], accept=ACC[v['acc']], permission='p' if v['perm'] else None)
-        ctx_iface = _impl['Interface'] if v['ctx'] is None else self.ctx[v['ctx']]
+        ctx_iface = _impl['Interface'] if v['ctx'] is None else \
+            _impl['markers'][v['ctx']] if v['ctx'] in MARKS else self.ctx[v['ctx']]
         for cl, classifier in self.classifiers.items():
             T = (cl, v['rq'], 0 if v['ctx'] is None else CTX[v['ctx']], v['name'])
             mv = self.real.registered((classifier, self.req[v['rq']], ctx_iface), IMultiView, name=NAMES[v['name']])
@@ -1065,7 +1231,7 @@ class _World:
         r.registry = self.reg
         if st['req'] != 1:
             r.request_iface = self.req[st['req']]
-        ctx = _impl['classes'][st['ctx']]()
+        ctx = self.make_context(st['ctx'], st.get('mark'))
         _impl['last_found'] = None
         _impl['first_found'] = None
         try:
@@ -1117,9 +1283,13 @@ class _World:
         fr = {'inj': {}, 'n': 0}
         self.stack.append(fr)
         try:
-            ans, crashed = self.request(st)
+            ans, crashed = self.run_on(st.get('th', 0), lambda: self.request(st))
         finally:
             self.stack.pop()
+        if st.get('mark'):
+            # the resource (and the specification describing what it provides) dies with its request
+            import gc
+            gc.collect()
         # the lookup of the request itself is the first one made (the Router may make further ones, e.g. for the
         # exception view of a 404)
         first = _impl.get('first_found')
@@ -1131,14 +1301,68 @@ class _World:
         self.spawn.append(oid)
         self.reg.adapters = self.real
         crashed = 0
+        tracer = self.probe_tracer(st) if st.get('probe') else None
         try:
-            self.add_view_pred(st)
+            self.run_on(st.get('th', 0), lambda: self.add_view_traced(st, tracer))
         except Exception:
             crashed = 1
         finally:
             self.reg.adapters = self.proxy
         self.threads.append([1, [], crashed, 1, 0])
         self.answers.append(0)
+
+    def add_view_traced(self, st, tracer):
+        import sys
+        if tracer is None:
+            return self.add_view_pred(st)
+        old = sys.gettrace()
+        sys.settrace(tracer)
+        try:
+            return self.add_view_pred(st)
+        finally:
+            sys.settrace(old)
+
+    def probe_tracer(self, st):
+        """harness-side instrument (no source change): while the registration runs, at every Python-level line of
+        MultiView.add and at every Python call made from it (e.g. a sort key function) the probe request is made
+        re-entrantly; its answers are collected in self.probe_answers"""
+        import sys
+        self.probe_answers = answers = []
+        probe = st['probe']
+        suffix = os.path.join('pyramid', 'config', 'views.py')
+
+        def fire():
+            sys.settrace(None)
+            saved = (_impl.get('last_found'), _impl.get('first_found'))
+            self.reg.adapters = self.proxy
+            self.stack.append({'inj': {}, 'n': 0})
+            try:
+                a, crashed = self.request(probe)
+                answers.append(['CRASH'] if crashed else a)
+            finally:
+                self.stack.pop()
+                self.reg.adapters = self.real
+                _impl['last_found'], _impl['first_found'] = saved
+                sys.settrace(glob)
+
+        def is_add(frame):
+            return frame is not None and frame.f_code.co_name == 'add' and frame.f_code.co_filename.endswith(suffix)
+
+        def local(frame, event, arg):
+            if event == 'line':
+                fire()
+            return local
+
+        def glob(frame, event, arg):
+            if event != 'call':
+                return None
+            if is_add(frame):
+                fire()
+                return local
+            if is_add(frame.f_back):
+                fire()
+            return None
+        return glob
 
     def start(self):
         self.reg.__dict__['_c15_world'] = self
@@ -1217,7 +1441,7 @@ class _World:
             try:
                 # a key without classifier is reported with classifier 0 (as the model's ckey does)
                 cl = self.classifier_ids[k[3]] if len(k) > 3 else 0
-                key = [cl, self.iface_ids[k[0]], self.iface_ids[k[1]], NAMES.index(k[2])]
+                key = [cl, self.iid(k[0]), self.iid(k[1]), NAMES.index(k[2])]
             except Exception:
                 # a key outside the modelled universe: made by a lookup the Router does on its own (the exception view
                 # of a 404 it renders), never by an operation of the case
@@ -1313,6 +1537,7 @@ def run_hist(case):
     w = _World(order=case['order'], foreign=case.get('foreign', 0))
     w.start()
     fresh = []
+    probes = []
     for oid, st in enumerate(case['hist']):
         if st['t'] == 'Q':
             w.hist_request(st, oid)
@@ -1325,7 +1550,24 @@ def run_hist(case):
         else:
             w.hist_register(st, oid)
             fresh.append(0)
-    return [w.threads, w.spawn, w.cache(), w.answers, fresh]
+            if st.get('probe'):
+                allowed = []
+                for upto in (oid, oid + 1):
+                    f = _World(order=case['order'], foreign=case.get('foreign', 0))
+                    for prev in case['hist'][:upto]:
+                        if prev['t'] == 'V':
+                            f.add_view_pred(prev)
+                    a, crashed = f.request(st['probe'])
+                    allowed.append(['FRESH-CRASH'] if crashed else a)
+                got = []
+                for a in getattr(w, 'probe_answers', []):
+                    if a not in got:
+                        got.append(a)
+                bad = [a for a in got if a not in allowed]
+                probes.append(1 if not bad else ['during', bad, 'before/after', allowed])
+    cache = w.cache()
+    w.close()
+    return [w.threads, w.spawn, cache, w.answers, fresh, probes]
 
 
 def run_impl(case):
@@ -1341,7 +1583,7 @@ def run_impl(case):
     w.number(case['ops'], [0])
     w.start()
     w.run_ops(case['ops'])
-    return [w.threads, w.spawn, w.cache(), [0] * len(w.threads), [0] * len(w.threads)]
+    return [w.threads, w.spawn, w.cache(), [0] * len(w.threads), [0] * len(w.threads), []]
 
 
 # ------------------------------------------------------------ judging
@@ -1354,9 +1596,11 @@ def spec_holds(case, obs, spec):
     if 'soak' in case:
         return obs == ['soak', 0, 1]
     expects, quiet, table, mspawn, _tlen, sanswers = spec
-    if not isinstance(obs, list) or len(obs) != 5 or (obs and obs[0] == 'HARNESS-EXC'):
+    if not isinstance(obs, list) or len(obs) != 6 or (obs and obs[0] == 'HARNESS-EXC'):
         return None
-    threads, spawn, cache, answers, fresh = obs
+    threads, spawn, cache, answers, fresh, probes = obs
+    if any(p != 1 for p in probes):
+        return False        # a request made while a registration ran was answered like neither before nor after it
     # history independence, judged without the model: every request is answered like a freshly built application
     # holding the same registrations answers that single request
     if answers != fresh:
@@ -1402,7 +1646,9 @@ def classify(case, obs, spec):
         if spec is None or 'soak' in case or _key_full():
             return None
         expects, quiet, table, mspawn, _tlen, sanswers = spec
-        threads, spawn, cache, answers, fresh = obs
+        threads, spawn, cache, answers, fresh, probes = obs
+        if any(p != 1 for p in probes):
+            return None
         if spawn != mspawn or len(threads) != len(expects):
             return None
         opk = _op_keys(case)
@@ -1454,7 +1700,7 @@ def _op_keys(case):
     out = {}
     if 'hist' in case:
         for i, st in enumerate(case['hist']):
-            out[i] = (st['cl'], st['req'], CTX[st['ctx']], st['name']) if st['t'] == 'Q' else None
+            out[i] = (st['cl'], st['req'], qctx(st), st['name']) if st['t'] == 'Q' else None
         return out
     counter = [0]
 
@@ -1523,6 +1769,23 @@ def kinds(case, obs):
                 k.append('hist-custom-accept-order')
             if case.get('foreign'):
                 k.append('hist-foreign-registry')
+            marks = [st.get('mark') for st in case['hist'] if st['t'] == 'Q' and st.get('mark')]
+            if marks:
+                k.append('hist-short-lived-marked-context')
+            if any(a != b for a, b in zip(marks, marks[1:])):
+                k.append('hist-marker-alternates')
+            ths = [st.get('th', 0) for st in case['hist']]
+            if len(set(ths)) > 1:
+                k.append('hist-several-os-threads')
+                seen = {}
+                for st in case['hist']:
+                    t = st.get('th', 0)
+                    if st['t'] == 'V' and any(x != t for x in seen.values()):
+                        k.append('hist-registration-on-another-thread-than-a-warm-one')
+                    if st['t'] == 'Q':
+                        seen[(st['req'], st['ctx'], st['name'], st['cl'])] = t
+            if any(st['t'] == 'V' and st.get('probe') for st in case['hist']):
+                k.append('hist-probe-during-registration')
             if any(st['t'] == 'V' and st['acc'] == 'html1' for st in case['hist']):
                 k.append('hist-accept-with-params')
             if any(st['t'] == 'Q' and st['h'] in ('textany', 'anylow') for st in case['hist']):
